@@ -721,35 +721,166 @@ func (m *Model) ruleExpOffset(r *Results, rule string) {
 		r.bad(rule, key, m.pos(fn.Pos()), "the offset-to-absolute function no longer adds the current time")
 		return
 	}
-	leqK, gt0 := false, false
-	for _, ct := range controllingConds(fn, add.Block()) {
-		cd := condOf(ct.If)
-		taken := ct.Branch
-		if cd.Neg {
-			taken = !taken
+	// The parameter is only compared with constants: the set of inputs for which control reaches
+	// the addition is a finite union of intervals, computed path by path.
+	const maxU = uint64(1<<32 - 1)
+	got := ivSet{}
+	var walk func(b *ssa.BasicBlock, cur ivSet, seen map[int]bool)
+	walk = func(b *ssa.BasicBlock, cur ivSet, seen map[int]bool) {
+		if len(cur) == 0 || seen[b.Index] {
+			return
 		}
-		if !taken {
-			continue
+		if b == add.Block() {
+			got = got.union(cur)
+			return
 		}
-		if stripConv(cd.X) != ssa.Value(P) {
-			continue
+		seen[b.Index] = true
+		defer delete(seen, b.Index)
+		if len(b.Instrs) == 0 {
+			return
 		}
-		if c, ok := stripConv(cd.Y).(*ssa.Const); ok && c.Value != nil {
-			switch {
-			case cd.Op == token.LEQ && c.Uint64() == 60*60*24*30:
-				leqK = true
-			case cd.Op == token.LSS && c.Uint64() == 60*60*24*30+1:
-				leqK = true
-			case cd.Op == token.GTR && c.Uint64() == 0:
-				gt0 = true
-			case cd.Op == token.NEQ && c.Uint64() == 0:
-				gt0 = true
-			case cd.Op == token.GEQ && c.Uint64() == 1:
-				gt0 = true
+		iff, ok := b.Instrs[len(b.Instrs)-1].(*ssa.If)
+		if !ok {
+			for _, s := range b.Succs {
+				walk(s, cur, seen)
+			}
+			return
+		}
+		cd := condOf(iff)
+		var cst uint64
+		var op token.Token
+		okCmp := false
+		if c, ok := stripConv(cd.Y).(*ssa.Const); ok && c.Value != nil && cd.X != nil && stripConv(cd.X) == ssa.Value(P) {
+			cst, op, okCmp = c.Uint64(), cd.Op, true
+		} else if c, ok := stripConv(cd.X).(*ssa.Const); ok && c.Value != nil && cd.Y != nil && stripConv(cd.Y) == ssa.Value(P) {
+			cst, okCmp = c.Uint64(), true
+			op = map[token.Token]token.Token{token.LSS: token.GTR, token.GTR: token.LSS, token.LEQ: token.GEQ, token.GEQ: token.LEQ, token.EQL: token.EQL, token.NEQ: token.NEQ}[cd.Op]
+		}
+		if !okCmp || op == token.ILLEGAL {
+			for _, s := range b.Succs {
+				walk(s, cur, seen)
+			}
+			return
+		}
+		holds := ivFor(op, cst, maxU)
+		walk(cd.succWhen(true), cur.intersect(holds), seen)
+		walk(cd.succWhen(false), cur.intersect(holds.complement(maxU)), seen)
+	}
+	walk(fn.Blocks[0], ivSet{{0, maxU}}, map[int]bool{})
+	want := ivSet{{1, 60 * 60 * 24 * 30}}
+	r.check(got.equal(want), rule, key, m.instrPos(add), "now is added exactly when 0 < exp <= 30 days (inputs reaching the addition: "+got.String()+")", "the offset-to-absolute conversion is applied for inputs "+got.String()+", not exactly for 0 < exp <= 2592000 (30 days): offsets at the boundary are stored raw, or absolute times are shifted")
+}
+
+// ivSet is a sorted set of disjoint closed integer intervals.
+type ivSet [][2]uint64
+
+func ivFor(op token.Token, c, maxU uint64) ivSet {
+	switch op {
+	case token.EQL:
+		return ivSet{{c, c}}
+	case token.NEQ:
+		return ivSet{{c, c}}.complement(maxU)
+	case token.LSS:
+		if c == 0 {
+			return ivSet{}
+		}
+		return ivSet{{0, c - 1}}
+	case token.LEQ:
+		return ivSet{{0, c}}
+	case token.GTR:
+		if c >= maxU {
+			return ivSet{}
+		}
+		return ivSet{{c + 1, maxU}}
+	case token.GEQ:
+		return ivSet{{c, maxU}}
+	}
+	return ivSet{{0, maxU}}
+}
+
+func (a ivSet) complement(maxU uint64) ivSet {
+	var out ivSet
+	next := uint64(0)
+	done := false
+	for _, iv := range a {
+		if iv[0] > next {
+			out = append(out, [2]uint64{next, iv[0] - 1})
+		}
+		if iv[1] >= maxU {
+			done = true
+			break
+		}
+		next = iv[1] + 1
+	}
+	if !done {
+		out = append(out, [2]uint64{next, maxU})
+	}
+	return out
+}
+
+func (a ivSet) intersect(b ivSet) ivSet {
+	var out ivSet
+	for _, x := range a {
+		for _, y := range b {
+			lo, hi := x[0], x[1]
+			if y[0] > lo {
+				lo = y[0]
+			}
+			if y[1] < hi {
+				hi = y[1]
+			}
+			if lo <= hi {
+				out = append(out, [2]uint64{lo, hi})
 			}
 		}
 	}
-	r.check(leqK && gt0, rule, key, m.instrPos(add), "now is added exactly when 0 < exp <= 30 days", "the offset-to-absolute conversion is not applied exactly for 0 < exp <= 2592000 (30 days): offsets at the boundary are stored raw, or absolute times are shifted")
+	return out.norm()
+}
+
+func (a ivSet) union(b ivSet) ivSet { return append(append(ivSet{}, a...), b...).norm() }
+
+func (a ivSet) norm() ivSet {
+	if len(a) == 0 {
+		return a
+	}
+	s := append(ivSet{}, a...)
+	sort.Slice(s, func(i, j int) bool { return s[i][0] < s[j][0] })
+	out := ivSet{s[0]}
+	for _, iv := range s[1:] {
+		last := &out[len(out)-1]
+		if iv[0] <= last[1]+1 && last[1] != ^uint64(0) {
+			if iv[1] > last[1] {
+				last[1] = iv[1]
+			}
+		} else {
+			out = append(out, iv)
+		}
+	}
+	return out
+}
+
+func (a ivSet) equal(b ivSet) bool {
+	a, b = a.norm(), b.norm()
+	if len(a) != len(b) {
+		return false
+	}
+	for i := range a {
+		if a[i] != b[i] {
+			return false
+		}
+	}
+	return true
+}
+
+func (a ivSet) String() string {
+	if len(a) == 0 {
+		return "none"
+	}
+	var parts []string
+	for _, iv := range a {
+		parts = append(parts, fmt.Sprintf("[%d..%d]", iv[0], iv[1]))
+	}
+	return strings.Join(parts, " u ")
 }
 
 // ---------------------------------------------------------------- R-CHECKPOINT
@@ -797,7 +928,17 @@ func (m *Model) ruleCHECKPOINT(r *Results) {
 		if cd.Neg {
 			taken = !taken
 		}
-		if okx && oky && taken && (cd.Op == token.GTR && fx.Name() == "Cas" && fy == casField || cd.Op == token.LSS && fy.Name() == "Cas" && fx == casField) {
+		if !okx || !oky {
+			continue
+		}
+		// normalise to: event.Cas OP mark
+		op := cd.Op
+		if fy.Name() == "Cas" && fx == casField {
+			op = map[token.Token]token.Token{token.LSS: token.GTR, token.GTR: token.LSS, token.LEQ: token.GEQ, token.GEQ: token.LEQ}[op]
+		} else if !(fx.Name() == "Cas" && fy == casField) {
+			continue
+		}
+		if op == token.GTR && taken || op == token.LEQ && !taken {
 			up = true
 		}
 	}
